@@ -7,6 +7,7 @@ import (
 	"os"
 	"reflect"
 	"strings"
+	"sync"
 
 	"gopkg.in/yaml.v3"
 	"verifharness/core"
@@ -261,6 +262,10 @@ func (p c16) Run(c *core.Ctx) {
 		p.collections(c)
 		return
 	}
+	if c.Index%20 == 11 {
+		p.afterFailure(c)
+		return
+	}
 	cfg := genC16Config(c)
 	b, _ := yaml.Marshal(cfg.tree)
 	doc := string(b)
@@ -344,8 +349,13 @@ func (p c16) Run(c *core.Ctx) {
 	nontrivial := nPlace >= 2 || strings.Contains(full, "${srv.") || valueHasPlaceholder || status == "circular"
 	if status == "circular" {
 		c.Count("circular_configs_terminated", 1)
+		// error or empty value are both acceptable - placeholder text that was never resolved is neither
+		if gs, isStr := got.(string); isStr && r.Outcome() == "ok" && strings.Contains(gs, "${") {
+			c.Fail("", fmt.Sprintf("tag %s over a circular configuration: the start succeeded and the field holds the unresolved text %q (neither an error nor an empty value)", tag, gs), detail(nil))
+			return
+		}
 		c.Nontrivial(full + "|" + doc)
-		return // error or empty value are both acceptable
+		return
 	}
 	// (i) the replacement
 	class := ""
@@ -718,6 +728,52 @@ func (p c16) collections(c *core.Ctx) {
 	}
 	c.Count("collection_valued_placeholders_checked", 1)
 	c.Nontrivial("collections|" + tag + "|" + string(js))
+}
+
+// afterFailure: a resolution that ends in an error (a circular reference in a lazy component, looked up after
+// the start, the caller handles the error) leaves nothing behind: the next component's placeholders resolve -
+// and terminate - as usual.
+func (p c16) afterFailure(c *core.Ctx) {
+	g := world.NewG(c.Rng)
+	bad := g.AddNode([]int{8, 7, 14}[c.Rng.Intn(3)], "lazy-bad")
+	good := g.AddNode([]int{8, 7, 14}[c.Rng.Intn(3)], "lazy-good")
+	cyc := [][2]string{{"${c2}", "${c1}"}, {"x${c1}", "unused"}, {"${c2}-${c2}", "${c1}"}}[c.Rng.Intn(3)]
+	g.Sc.Config = fmt.Sprintf("c1: %q\nc2: %q\nok:\n  key: fine\n", cyc[0], cyc[1])
+	g.Sc.Nodes[bad].Cfg = map[string]world.TagSpec{"CfgS": {Tag: "value", Val: []string{"${c1}", "pre-${c1}", "${c1:dflt}"}[c.Rng.Intn(3)]}}
+	goodTag := []string{"${ok.key}", "${ok.none:fine}", "${ok.${ok.sel:key}}"}[c.Rng.Intn(3)]
+	g.Sc.Nodes[good].Cfg = map[string]world.TagSpec{"CfgS": {Tag: "value", Val: goodTag}}
+	r := world.Start(g.Sc, world.Options{NoTracer: true, BinderBudget: 200000})
+	c.Count("starts", 1)
+	c.Count("resolutions_after_a_failed_resolution", 1)
+	detail := map[string]any{"config": g.Sc.Config, "bad_tag": g.Sc.Nodes[bad].Cfg["CfgS"].Val, "good_tag": goodTag, "outcome": core.Short(r.OutcomeDetail(), 300)}
+	if r.Outcome() != "ok" {
+		c.Fail("", "start with two untouched lazy components: "+core.Short(r.OutcomeDetail(), 300), detail)
+		return
+	}
+	var wg sync.WaitGroup
+	var err1, err2 error
+	wg.Add(1)
+	go func() {
+		defer wg.Done()
+		r.Guard(func() { _, err1 = r.App.GetComponentByName("lazy-bad") })
+		if r.Panic != nil || r.Diverge != nil {
+			return
+		}
+		r.Guard(func() { _, err2 = r.App.GetComponentByName("lazy-good") })
+	}()
+	if !waitOrStall(&wg, func() int64 { return int64(r.Binder.Count()) }) {
+		c.Fail("", "after a lookup whose placeholder resolution ended in an error (circular reference), the lookup of another lazy component hangs", detail)
+		return
+	}
+	if r.Panic != nil || r.Diverge != nil {
+		c.Fail("", "lookups of lazy components with placeholders: "+core.Short(r.OutcomeDetail(), 300), detail)
+		return
+	}
+	if err2 != nil || r.Nodes[good].Slot().CfgS != "fine" {
+		c.Fail("", fmt.Sprintf("after a failed resolution (%v) the next component's tag %q gives %q (%v), expected \"fine\"", err1 != nil, goodTag, r.Nodes[good].Slot().CfgS, err2), detail)
+		return
+	}
+	c.Nontrivial("afterfailure|" + g.Sc.Config + goodTag)
 }
 
 func (p c16) early(c *core.Ctx) {
